@@ -199,7 +199,8 @@ def op_negotiate(rng):
         dialer = dialer + [rng.choice(dialer)] if dialer else dialer
     order = "".join(rng.choice("dl") for _ in range(rng.randrange(1, 12)))
     return (f"negotiate ver={ver} dialer={hl(dialer)} listener={hl(listener)} dpay={hx(payload(rng))} lpay={hx(payload(rng))} "
-            f"dr={script(rng)} dw={script(rng)} lr={script(rng)} lw={script(rng)} order={order}")
+            f"dr={script(rng)} dw={script(rng)} lr={script(rng)} lw={script(rng)} order={order}"
+            + (" vec=1" if rng.random() < 0.3 else ""))      # application payload through vectored writes
 
 
 REF_NAMES = [n for n in BASE if valid_name(n)] + [b"/" + b"N" * 300, b"/" + b"L" * (MAX_FRAME - 2)]
